@@ -48,6 +48,7 @@ func (x *Exec) registerGhosts(fn *ssa.Function) {
 	x.ghostTy["auth.acc"] = ghostInfo{Arr: true, Sort: "(Array Bytes Bool)"}
 	x.ghostTy["perm.admin"] = ghostInfo{Arr: true, Opt: true, Sort: permAdminSort, ValTy: tBytes}
 	x.ghostTy["chan.nextSend"] = ghostInfo{Arr: true, Opt: true, Sort: chanSeqSort, ValTy: tUint64}
+	x.registerOracleGhost()
 	module := "ophost"
 	pkgPath := ""
 	if p := pkgOf(fn); p != nil {
@@ -293,3 +294,15 @@ func isKnownInside(g *OblGroup) bool {
 	return len(g.Obls) > 0 && strings.HasPrefix(g.Obls[0].Region, "inside:") == false && g.Obls[0].Region != "" && g.Kind == "known"
 }
 
+
+// registerOracleGhost pre-registers the connect oracle price state (types from the dependency).
+func (x *Exec) registerOracleGhost() {
+	cpP := x.L.Prog.ImportedPackage("github.com/skip-mev/connect/v2/pkg/types")
+	qpP := x.L.Prog.ImportedPackage("github.com/skip-mev/connect/v2/x/oracle/types")
+	if cpP == nil || qpP == nil || cpP.Type("CurrencyPair") == nil || qpP.Type("QuotePrice") == nil {
+		return
+	}
+	cpTy, qpTy := cpP.Type("CurrencyPair").Type(), qpP.Type("QuotePrice").Type()
+	sort := "(Array " + x.enc.Sort(cpTy) + " (Opt " + x.enc.Sort(qpTy) + "))"
+	x.ghostTy[oraclePriceGhost] = ghostInfo{Arr: true, Opt: true, ValTy: qpTy, KeyTy: cpTy, Sort: sort}
+}
